@@ -30,7 +30,7 @@ type sigEnt struct {
 	dlog  *big.Int // logarithm of the point the value decodes to; nil = does not decode
 }
 
-func g1Bytes(d *big.Int) []byte { return PtBytes(Pt(Bn.G1(), d, BnQ)) }
+func g1Bytes(d *big.Int) []byte { return PtBytes(Pt(Bn.G1(), new(big.Int).Mod(d, BnQ), BnQ)) }
 
 func withIndex(i int, val []byte) []byte {
 	b := make([]byte, 2+len(val))
